@@ -51,6 +51,18 @@ func addressTable(fail func(class, witness, detail string)) {
 				}
 				return true
 			}
+			// the three representations answer the ledger question alike
+			ab, ia := common.AddressBytes(b), common.InternalAddress(b)
+			if ab.IsInQiLedgerScope() != wantQi || ab.IsInQuaiLedgerScope() == wantQi || ia.IsInQiLedgerScope() != wantQi || ia.IsInQuaiLedgerScope() == wantQi {
+				fail("address-classification", "path=twin-ledger-predicates", fmt.Sprintf("address %x: AddressBytes says qi=%v quai=%v, InternalAddress says qi=%v quai=%v, the second byte says qi=%v", b, ab.IsInQiLedgerScope(), ab.IsInQuaiLedgerScope(), ia.IsInQiLedgerScope(), ia.IsInQuaiLedgerScope(), wantQi))
+				return
+			}
+			if l := ab.Location(); l == nil || l.BytePrefix() != b[0] {
+				if l != nil {
+					fail("address-classification", "path=AddressBytes.Location", fmt.Sprintf("address %x is placed in %v", b, l))
+					return
+				}
+			}
 			if !check("BytesToAddress", common.BytesToAddress(b[:], loc)) {
 				return
 			}
